@@ -186,6 +186,8 @@ func runC07(c *core.Ctx) {
 	runR76(c)
 	runR77(c)
 	runR78(c)
+	c.Rule("R7.10", "a text storage command consumes its data block and the line terminator that follows it: the buffer holds length+2 bytes, or a further read of the stream lies on every path from the data read to a success return", 1)
+	runR710(c, "R7.10")
 	c.Rule("R7.9", "a request header has one owner: a decoder handed the header its caller releases never puts it back into the pool itself (a header released twice is given to two connections, whose requests then overwrite each other's length fields)", 2)
 	runR147(c, "R7.9", poolWrappers(c), "protocol")
 }
@@ -969,4 +971,93 @@ func runR78(c *core.Ctx) {
 // noExtrasDecoder: a data-command decoder that reads no extras words (append/prepend carry none).
 func noExtrasDecoder(fn *ssa.Function) bool {
 	return !callsAny(fn, pBinprot+".readUInt32") && callsAny(fn, "io.ReadAtLeast")
+}
+
+// runR710 (R7.10, shared as R8.13): a text storage command consumes its data block AND the line terminator that follows
+// it. Either the data buffer is sized by the declared length plus at least two bytes (and filled by a full read, R7.6),
+// or every path from the read of the data block to a success return passes a further read of the same stream (the
+// terminator line). A terminator left in the stream is decoded as an empty command: the client gets an extra error
+// reply and every later reply is attributed to the wrong request.
+func runR710(c *core.Ctx, rule string) {
+	const rel = "protocol/textprot"
+	n := 0
+	pv := &ssax.Prov{}
+	for _, fn := range pkgFuncs(c, rel) {
+		ssax.Instrs(fn, func(ins ssa.Instruction) {
+			al, ok := ins.(*ssa.Alloc)
+			if !ok || strings.TrimPrefix(ssax.ShortType(al.Type()), "*common.") != "SetRequest" || literalField(al, "Key") == nil {
+				return
+			}
+			dv := literalField(al, "Data")
+			if dv == nil {
+				return
+			}
+			var ms *ssa.MakeSlice
+			var declared ssa.Value
+			switch x := ssax.Unwrap(dv).(type) {
+			case *ssa.MakeSlice:
+				ms, declared = x, x.Len
+			case *ssa.Slice:
+				if m, ok := ssax.Unwrap(x.X).(*ssa.MakeSlice); ok && x.High != nil {
+					ms, declared = m, x.High
+				}
+			}
+			if ms == nil {
+				return // R7.8 reports a Data that is not a buffer sized by the command line
+			}
+			n++
+			key := core.FuncName(fn) + "#terminator-consumed"
+			ev := &ssax.SymEval{}
+			if d := ev.Eval(ms.Len).Sub(ev.Eval(declared)); d.IsConst() && d.Const >= 2 {
+				c.OK(rule, key, c.P.Pos(ms.Pos()), fmt.Sprintf("the data buffer holds the declared length plus %d bytes: the terminator is read with the data block", d.Const))
+				return
+			}
+			// the read that fills the buffer
+			var dataRead ssa.Instruction
+			ssax.Instrs(fn, func(i ssa.Instruction) {
+				cc := ssax.CallOf(i)
+				if cc == nil {
+					return
+				}
+				if nm := ssax.CalleeName(cc); nm != "io.ReadAtLeast" && nm != "io.ReadFull" {
+					return
+				}
+				if ssax.Any(pv.Sources(cc.Args[1]), func(s ssax.Src) bool { return s.V == ssa.Value(ms) }) || ssax.Unwrap(cc.Args[1]) == ssa.Value(ms) {
+					dataRead = i
+				}
+			})
+			if dataRead == nil {
+				c.Undecided(rule, key, c.P.Pos(ms.Pos()), "the read that fills the data buffer was not found (not io.ReadAtLeast/io.ReadFull into the buffer): idiom not recognised")
+				return
+			}
+			isStreamRead := func(i ssa.Instruction) bool {
+				cc := ssax.CallOf(i)
+				if cc == nil {
+					return false
+				}
+				switch ssax.CalleeName(cc) {
+				case "(*bufio.Reader).ReadString", "(*bufio.Reader).ReadBytes", "(*bufio.Reader).ReadLine", "(*bufio.Reader).ReadSlice",
+					"(*bufio.Reader).Discard", "(*bufio.Reader).ReadByte", "(*bufio.Reader).ReadRune", "io.ReadFull", "io.ReadAtLeast":
+					return true
+				}
+				return false
+			}
+			hit, trail := (ssax.Reach{
+				Target: func(i ssa.Instruction) bool {
+					ret, ok := i.(*ssa.Return)
+					if !ok || len(ret.Results) == 0 {
+						return false
+					}
+					last := ret.Results[len(ret.Results)-1]
+					return !definitelyNonNil(last, ret.Block())
+				},
+				Avoid: isStreamRead,
+			}).From(dataRead)
+			c.Check(hit == nil, rule, key, c.P.Pos(dataRead.Pos()), "after the data block the terminator line is read before the request is returned",
+				"the request can be returned right after its data block was read ("+strings.Join(ssax.BlockTrail(c.P.Fset, trail), " -> ")+"): the \\r\\n that ends the data block stays in the stream and is decoded as an empty command - an extra error reply, and every later reply belongs to the wrong request")
+		})
+	}
+	if n == 0 {
+		c.Undecided(rule, "textprot#terminator-consumed", "-", "no text storage command decoder found")
+	}
 }
